@@ -91,10 +91,11 @@ struct World<const N: usize> {
 fn put_version(src: &MemSource, v: u64) { src.put("big", "big", FileSt::Bytes(format!("v:{v}").into_bytes().into(), 0)); }
 fn notify(src: &MemSource) { if let Some(tx) = src.sender() { let _ = tx.send(OwnedDirEntry::File("big".into(), "big".into())); } }
 /// every event sent so far has been taken (and, the loop being sequential, handled before the next `Ptr`)
-fn barrier(src: &MemSource) -> bool {
+fn barrier(src: &MemSource) -> bool { barrier_for(src, Duration::from_secs(3)) }
+fn barrier_for(src: &MemSource, limit: Duration) -> bool {
     if let Some(tx) = src.sender() {
         let t0 = Instant::now();
-        while tx.verif_pending() > 0 { if t0.elapsed() > Duration::from_secs(10) { return false; } std::thread::yield_now(); }
+        while tx.verif_pending() > 0 { if t0.elapsed() > limit { return false; } std::thread::yield_now(); }
     }
     true
 }
@@ -109,7 +110,10 @@ fn new_world<const N: usize>() -> World<N> {
 }
 
 const GRACE_BLOCK: Duration = Duration::from_millis(25);
-const GRACE_RETURN: Duration = Duration::from_secs(8);
+const GRACE_RETURN: Duration = Duration::from_secs(3);
+/// cases with oracle failures so far in this process: after a few, later cases are skipped (a failing tree makes every wait run to its limit)
+static FAILED_CASES: AtomicU64 = AtomicU64::new(0);
+const FAILURE_BUDGET: u64 = 6;
 
 struct Script<const N: usize> {
     w: World<N>,
@@ -120,6 +124,8 @@ struct Script<const N: usize> {
     vmap: BTreeMap<u64, u64>,
     inflight: Option<Arc<AtomicBool>>,
     inflight_dirty: bool,
+    /// a wait that should have ended ran to its limit: later waits of this case are short
+    stuck: bool,
 }
 
 impl<const N: usize> Script<N> {
@@ -129,9 +135,10 @@ impl<const N: usize> Script<N> {
     fn held(&self) -> usize { self.slots.iter().filter(|s| s.is_some()).count() }
     fn wait_done(&mut self, limit: Duration) -> &'static str {
         let Some(done) = self.inflight.clone() else { return "" };
+        let limit = if self.stuck { limit.min(GRACE_BLOCK) } else { limit };
         let t0 = Instant::now();
         while !done.load(SeqCst) && t0.elapsed() < limit { std::thread::sleep(Duration::from_micros(200)); }
-        if done.load(SeqCst) { self.inflight = None; " returned" } else { " blocked" }
+        if done.load(SeqCst) { self.inflight = None; " returned" } else { if limit >= GRACE_RETURN { self.stuck = true; } " blocked" }
     }
     /// re-read through slot `r`; oracle: same value, same id as when the guard was taken
     fn peek(&mut self, r: usize, rec: &mut CaseRec) -> String {
@@ -155,7 +162,7 @@ impl<const N: usize> Script<N> {
                     "iso.acq" => {
                         if self.slots[r].is_some() { rec.op(line, "busy"); return }
                         // a reader arriving while a writer waits may be queued behind it by the lock (allowed, not modelled): not scripted
-                        if self.inflight.is_some() { rec.stat("script/acq-skipped-while-reload-in-flight"); return }
+                        if self.inflight.is_some() || self.stuck { rec.stat("script/acq-skipped-while-reload-in-flight"); return }
                         let g = self.w.handle.read();
                         let first = g.verify();
                         let rid0 = self.w.handle.last_reload_id().verif_raw();
@@ -208,7 +215,10 @@ impl<const N: usize> Script<N> {
             ("iso.rid", 1) => rec.op(line, self.w.handle.last_reload_id().verif_raw().to_string()),
             ("iso.reload", 1) => {
                 if self.inflight.is_some() { rec.op(line, "busy"); return }
-                if self.inflight.is_none() && !barrier(&self.w.src) { rec.oracle_fail("event-never-taken the reloader thread does not take pending events"); }
+                if !barrier_for(&self.w.src, if self.stuck { GRACE_BLOCK } else { GRACE_RETURN }) {
+                    if !self.stuck { rec.oracle_fail("event-never-taken the reloader thread does not take pending events although no hot_reload call is in flight"); }
+                    self.stuck = true;
+                }
                 // values change only inside hot_reload: the notified edit must not be visible yet
                 if self.dirty && self.held() == 0 {
                     let v = self.w.handle.read().verify();
@@ -239,17 +249,22 @@ impl<const N: usize> Script<N> {
             let want = self.vmap.iter().find(|(_, n)| **n == self.installs).map(|(v, _)| *v);
             if v.as_ref().ok().copied() != want { rec.oracle_fail(format!("returned-before-update hot_reload returned but the value is {v:?}, expected version {want:?}")); }
         }
-        if self.inflight_dirty && self.held() > 0 { rec.stat("script/returned-under-guard"); }
+        if self.inflight_dirty && self.held() > 0 {
+            // return ⇒ the triggered reload is finished ⇒ the value behind the live guard was replaced; or it is not finished
+            rec.stat("script/returned-under-guard");
+            rec.oracle_fail("returned-under-guard hot_reload of a notified edit returned while a guard on the entry was alive: either the guarded value was replaced or the reload it triggered is not finished");
+            self.stuck = true; // the writer may still be queued on the lock: no further acquisitions on this thread
+        }
     }
     fn finish(mut self, rec: &mut CaseRec) {
         for s in self.slots.iter_mut() { *s = None; }
-        if self.wait_done(GRACE_RETURN) == " blocked" { rec.oracle_fail("reload-never-returned hot_reload still blocked 8 s after the last guard was dropped"); }
+        if self.wait_done(GRACE_RETURN) == " blocked" { rec.oracle_fail("reload-never-returned hot_reload still blocked 3 s after the last guard was dropped"); }
     }
 }
 
 fn run_script<const N: usize>(readers: usize, lines: &[String], rec: &mut CaseRec) {
     let mut sc = Script::<N> { w: new_world::<N>(), slots: (0..readers).map(|_| None).collect(), file_ver: 0, dirty: false, installs: 0,
-        vmap: BTreeMap::from([(0, 0)]), inflight: None, inflight_dirty: false };
+        vmap: BTreeMap::from([(0, 0)]), inflight: None, inflight_dirty: false, stuck: false };
     for l in lines { sc.op(l, rec); }
     sc.finish(rec);
 }
@@ -422,7 +437,14 @@ impl Engine for IsoEngine {
     }
 
     fn exec_case(&mut self, lines: &[String], rec: &mut CaseRec) {
-        quiet_log();
+        if FAILED_CASES.load(SeqCst) >= FAILURE_BUDGET { rec.stat("skipped-after-failures"); return; }
+        self.exec_inner(lines, rec);
+        if !rec.oracle.is_empty() { FAILED_CASES.fetch_add(1, SeqCst); }
+    }
+}
+
+impl IsoEngine {
+    fn exec_inner(&mut self, lines: &[String], rec: &mut CaseRec) {
         let mut i = 0;
         while i < lines.len() {
             let w: Vec<&str> = lines[i].split_whitespace().collect();
@@ -457,4 +479,3 @@ impl Engine for IsoEngine {
     }
 }
 
-fn quiet_log() {}
